@@ -707,6 +707,24 @@ func ruleV4c(c *Ctx) *RuleResult {
 			}
 		})
 	}
+	// the fields a called callback is copied from (field-to-field copies) are part of the same obligation
+	for changed := true; changed; {
+		changed = false
+		for f := range called {
+			for _, fn := range c.Funcs {
+				for _, st := range storesToField(c, fn, f) {
+					if lf, _ := loadedField(stripConv(st.Val)); lf != nil {
+						if _, isSig := lf.Type().Underlying().(*types.Signature); isSig {
+							if _, ok := called[lf]; !ok && !(c.fieldOwner(lf) == "Client" && lf.Exported()) {
+								called[lf] = []ssa.Instruction{st}
+								changed = true
+							}
+						}
+					}
+				}
+			}
+		}
+	}
 	var fields []*types.Var
 	for f := range called {
 		fields = append(fields, f)
@@ -807,6 +825,46 @@ func ruleV4c(c *Ctx) *RuleResult {
 					bad = "a success return of " + FuncName(fn) + " at " + c.Pos(posOf(ret)) + " is reachable without assigning " + fname
 				}
 			})
+		}
+		// a field that is only ever set at construction must be set by every construction of its struct
+		if bad == "" {
+			onlyLiterals := true
+			for _, fn := range storeFns {
+				for _, st := range storesToField(c, fn, f) {
+					if !freshObject(st.Addr) {
+						onlyLiterals = false
+					}
+				}
+			}
+			if owner := namedOwner(c, f); onlyLiterals && owner != nil {
+				for _, fn := range c.Funcs {
+					allInstrs(fn, func(in ssa.Instruction) {
+						al, ok := in.(*ssa.Alloc)
+						if !ok {
+							return
+						}
+						pt, ok := al.Type().Underlying().(*types.Pointer)
+						if en, isNamed := types.Unalias(pt.Elem()).(*types.Named); !ok || !isNamed || en != owner {
+							return
+						}
+						set := false
+						for _, ref := range *al.Referrers() {
+							if fa, ok := ref.(*ssa.FieldAddr); ok {
+								if ff, _ := fieldOfAddr(fa); ff == f {
+									for _, r2 := range *fa.Referrers() {
+										if st, ok := r2.(*ssa.Store); ok && st.Addr == fa {
+											set = true
+										}
+									}
+								}
+							}
+						}
+						if !set {
+							bad = "the " + owner.Obj().Name() + " constructed in " + FuncName(fn) + " at " + c.Pos(al.Pos()) + " leaves " + fname + " nil"
+						}
+					})
+				}
+			}
 		}
 		if bad != "" {
 			r.fail(key, pos, "", what, bad+": the first call through the field panics")
